@@ -534,7 +534,8 @@ func (g *G) aliasProbe() string {
 		write = pick(g.r, []string{a + ".p = 71", b + ".p = 72", a + ".q[0] = 73", b + ".q[0] = 74", a + ".r = 75", "delete(" + b + ", \"p\")"})
 	} else {
 		init = a + " := [" + g.lit(TInt) + ", " + g.lit(TInt) + ", " + g.lit(TInt) + "]"
-		if g.r.Intn(3) == 0 {
+		nested := g.r.Intn(3) == 0
+		if nested {
 			init = a + " := [[" + g.lit(TInt) + "], " + g.lit(TInt) + ", {n: " + g.lit(TInt) + "}]"
 		}
 		derive = pick(g.r, []string{
@@ -555,6 +556,11 @@ func (g *G) aliasProbe() string {
 			"[" + a + "][0]",
 		})
 		write = pick(g.r, []string{a + "[0] = 71", b + "[0] = 72", a + "[2] = 73", b + "[len(" + b + ")-1] = 74", a + "[1] += 5", b + "[1] += 6"})
+		if nested && g.r.Intn(2) == 0 {
+			// copies must be deep, also when the value copied is (or contains) an immutable container
+			derive = pick(g.r, []string{"copy(" + a + ")", "copy(immutable(" + a + "))", "copy(freeze(" + a + "))", "copy([" + a + "])[0]", "copy({k: immutable(" + a + ")}).k", "copy(immutable([" + a + "]))[0]", derive})
+			write = pick(g.r, []string{a + "[0][0] = 76", b + "[0][0] = 77", a + "[2].n = 78", b + "[2].n = 79", a + "[2].m = 80", a + "[0] = append(" + a + "[0], 81)"})
+		}
 	}
 	g.declare(a, TAny, true)
 	g.declare(b, TAny, true)
